@@ -1,4 +1,5 @@
 From Coq Require Import Extraction ExtrOcamlBasic.
-From Rumqtt Require Import Codec.V4.
+From Rumqtt Require Import Codec.V4 Codec.V5.
 Extraction Language OCaml.
-Extraction "codec_model.ml" read write size run_stream4 wf_v4 norm repr utf8_valid.
+Extraction "codec_model.ml" read write size run_stream4 wf_v4 norm repr utf8_valid
+  read5 read5_gen unfixed fixed write5 size5 run_stream5 wf5 norm5 kind_of_id.
